@@ -937,7 +937,19 @@ impl<C: CellType> OptRebuild<'_, C> {
         if sub_state.no_return {
             self.no_return = true;
         } else {
-            self.perform_all(0, &sub_state.pending.into_iter().collect::<Vec<_>>());
+            let pending = sub_state.pending.into_iter().collect::<Vec<_>>();
+            #[cfg(feature = "verif")]
+            if pending.len() >= 2 {
+                crate::verif::trace(format!(
+                    "order inline {}",
+                    pending
+                        .iter()
+                        .map(|(k, _)| k.to_string())
+                        .collect::<Vec<_>>()
+                        .join(",")
+                ));
+            }
+            self.perform_all(0, &pending);
             self.shift = sub_state.shift;
         }
         self.sub_anal.append(&mut sub_state.sub_anal);
